@@ -1720,6 +1720,61 @@ def check_remove_gap(run: Run, prog: Program) -> None:  # noqa: C901
     _floor(run, fn.qual, n >= 4, f"{fn.qual}: only {n} paths with a gap found")
 
 
+def _ahead_fact(key: Any, outcome: bool, ivar: str, gaps: str) -> tuple[int | None, int | None]:
+    """What one decided comparison says about n = len(gaps) - ivar (integers), as (lower, upper) bound of n, in
+    every linear spelling: `i < len - 1`, `i + 1 < len`, `len > i + 1`, `i + 2 <= len`, `len - i > 1`,
+    `i == len - 1`, ...  (None, None) when the comparison is about something else."""
+    if not (isinstance(key, tuple) and key and key[0] in ("<", "<=", "==")):
+        return None, None
+    try:
+        a, b = (key[1], key[2]) if key[0] != "==" else tuple(sorted(key[1]))
+        d = _poly(b) - _poly(a) - (_poly(f"len({gaps})") - _poly(ivar))
+        sign = 1
+        if d.const_value() is None:
+            d, sign = _poly(b) - _poly(a) + (_poly(f"len({gaps})") - _poly(ivar)), -1
+        c = d.const_value()
+    except (SyntaxError, ValueError, TypeError):
+        return None, None
+    if c is None or c.denominator != 1:
+        return None, None
+    c = int(c)                                   # b - a == sign * n + c
+    if key[0] == "==":
+        return (-sign * c, -sign * c) if outcome else (None, None)
+    t = 1 if key[0] == "<" else 0                # holds  <=>  sign * n + c >= t
+    if sign > 0:
+        return (t - c, None) if outcome else (None, t - c - 1)
+    return (None, c - t) if outcome else (c - t + 1, None)
+
+
+def _ahead_bounds(p: Path, ivar: str, gaps: str, before: int | None = None, lo: int | None = None,
+                  stop: int | None = None) -> tuple[int | None, int | None]:
+    """Bounds of len(gaps) - ivar entailed by the comparisons decided on the path [before effect `before`; only
+    those decided before effect `stop`, where the list changes its length]; `lo`: what the loop test gives."""
+    hi: int | None = None
+    excluded: set[int] = set()
+    for i, e in enumerate(p.effects):
+        if (before is not None and i >= before) or (stop is not None and i >= stop):
+            break
+        if e.kind != "cond":
+            continue
+        key, outcome = e.orig  # type: ignore[misc]
+        if isinstance(key, tuple) and key and key[0] == "==" and not outcome:
+            v = _ahead_fact(key, True, ivar, gaps)[0]
+            if v is not None:
+                excluded.add(v)
+            continue
+        flo, fhi = _ahead_fact(key, outcome, ivar, gaps)
+        if flo is not None:
+            lo = flo if lo is None else max(lo, flo)
+        if fhi is not None:
+            hi = fhi if hi is None else min(hi, fhi)
+    while lo is not None and lo in excluded:
+        lo += 1
+    while hi is not None and hi in excluded:
+        hi -= 1
+    return lo, hi
+
+
 def check_cleanup(run: Run, prog: Program) -> None:  # noqa: C901
     """C09.GAP: _cleanup_gaps sorts the gaps by start and then walks them with an index; each step of the walk
     is locally sound (a gap is dropped only if it ended before the window, trimmed only if it starts before it,
@@ -1757,21 +1812,41 @@ def check_cleanup(run: Run, prog: Program) -> None:  # noqa: C901
               "the gaps are not sorted by their start before neighbours are compared and merged", **where0)
     test = loop.orig.test  # type: ignore[union-attr]
     ck = canon(test)
-    ivar = ck[1] if isinstance(ck, tuple) and len(ck) == 3 and ck[0] == "<" and ck[2] == f"len({gaps})" else None
     entry = getattr(loop, "entry", {})
+    # the loop test says exactly `index < len(gaps)`, in any linear spelling (`i + 1 <= len`, `len - i > 0`, ...)
+    ivar = next((n.id for n in ast.walk(test) if isinstance(n, ast.Name) and n.id in entry
+                 and _ahead_fact(ck, True, n.id, gaps) == (1, None)), None)
     ok = ivar is not None and ivar in entry and u(entry[ivar]) == "0"
     run.check(ok, "C09.GAP", fn.qual, "i = 0; while i < len(self._gaps)",
               "the walk does not visit every gap (from the first one, while the index is inside the list)", **where0)
     if not ok:
         return
     w1, w2 = f"{gaps}[{ivar}]", f"{gaps}[{ivar} + 1]"
-    has_next = ("<", ivar, f"len({gaps}) - 1")
+    summ = MutationSummary(prog, _ring(prog))
+
+    def resized(p: Path) -> int | None:
+        """Position of the first effect after which len(gaps) / the loop test's guarantee is no longer the entry one."""
+        for i, e in enumerate(p.effects):
+            if e.kind == "write" and self_attr_root(e.node.elts[0]) == "_gaps" \
+                    and u(e.node.elts[0]) not in (f"{w1}.start", f"{w1}.end", f"{w2}.start", f"{w2}.end"):  # type: ignore[attr-defined]
+                return i
+            if e.kind == "del" and self_attr_root(e.node) == "_gaps":
+                return i
+            if e.kind == "call" and summ.of_call(e.node) & {"_gaps"}:  # type: ignore[arg-type]
+                return i
+        return None
+
+    def has_next(p: Path, before: int | None = None) -> bool | None:
+        """Does the current gap have a successor (index + 1 < len), as far as the index guards taken on the path
+        say -- whatever their spelling; the loop test itself gives len - index >= 1."""
+        lo, hi = _ahead_bounds(p, ivar, gaps, before, 1, resized(p))
+        return True if lo is not None and lo >= 2 else False if hi is not None and hi <= 1 else None
 
     def present(p: Path, before: int | None = None) -> bool:
-        return truth(p, w2, before) is True or none_test(p, w2, before) is False
+        return truth(p, w2, before) is True or none_test(p, w2, before) is False or has_next(p, before) is True
 
     def absent(p: Path) -> bool:
-        return decided(p, has_next) is False or truth(p, w2) is False or none_test(p, w2) is True
+        return has_next(p) is False or truth(p, w2) is False or none_test(p, w2) is True
     q0 = Path()
     q0.env = dict(getattr(loop, "env", {}))
     n = 0
@@ -1786,13 +1861,13 @@ def check_cleanup(run: Run, prog: Program) -> None:  # noqa: C901
                 muts.append((i, "set", u(e.node.elts[0]), e.node.elts[1]))  # type: ignore[attr-defined]
             elif e.kind == "del" and self_attr_root(e.node) == "_gaps":
                 muts.append((i, "del", u(e.node), None))
-            elif e.kind == "call" and MutationSummary(prog, _ring(prog)).of_call(e.node) & {"_gaps"}:  # type: ignore[arg-type]
+            elif e.kind == "call" and summ.of_call(e.node) & {"_gaps"}:  # type: ignore[arg-type]
                 muts.append((i, "call", u(e.node), None))
         adv = u(p.env[ivar]) if ivar in p.env else ivar
         texts = " ".join(t for _i, _k, t, _v in muts) + " " + " ".join(u(v) for _i, _k, _t, v in muts if v is not None) \
             + " " + " ".join(u(e.node) for e in p.effects if e.kind == "cond")
         if w2 in texts:
-            run.check(decided(p, has_next) is True, "C09.GAP", fn.qual, f"{w2} only while {ivar} < len - 1",
+            run.check(has_next(p) is True, "C09.GAP", fn.qual, f"{w2} only while {ivar} < len - 1",
                       "the successor of the current gap is looked at although the current gap is not established to "
                       "have one", **where)
         if not muts:
